@@ -134,6 +134,7 @@ def fitted_scope(ctx, props):
             for j in idx: col.iloc[j] = ''
             case['X'][c] = col
         cfg = dict(min_freq=ctx.rng.choice([0.05, 0.1, 0.2, 0.25, 0.34, 0.5]), max_n_mod=3, sort_by='tschuprowt', dropna=True, output_dtype='str')
+        if i % 4 == 1: cfg['str_default'] = 'AUTRES'; cfg['str_nan'] = 'MISSING'
         kinds = [k for k in ('Discretizer', 'QuantitativeDiscretizer', 'QualitativeDiscretizer') if ob.applicable(k, case)]
         specs.append((ctx.rng.choice(kinds), case, cfg, i))
     ctx.bound('Discretizer family fit', '%d seeded random frames (incl. degenerate columns, empty-string categories, never-observed ordinal values), min_freq in {0.05,0.1,0.2,0.25,0.34,0.5}' % n)
